@@ -18,12 +18,42 @@ CONFIGS = [
 ]
 
 
+o_extra = {}
+
+
 def op_case(o, options, tier, tracer="none"):
+    if "family:fixture" in o.tags:
+        x = o_extra[id(o)]
+        return dict(schema=x["schema"], doc_text=o.doc_text, op_name=o.name, uses_var=False, auto_kwargs=True, arg_scalars=x["scal"], scalar_values=x["scal"] or None,
+                    options=dict(x["options"], **options), checks=["c01"], bound=2 if tier == "quick" else 3, max_runs=300 if tier == "quick" else 1500, tracer=tracer)
     if "family:K2" in o.tags:
         return dict(schema=corpus.SCHEMA_K2, doc_text=o.doc_text, op_name=o.name, uses_var=False, kwargs_list=corpus.k2_kwargs(o), options=options,
                     checks=["c01"], bound=2 if tier == "quick" else 3, max_runs=400 if tier == "quick" else 2000, tracer=tracer)
     return dict(schema=corpus.SCHEMA_K, doc_text=o.doc_text, op_name=o.name, uses_var=o.uses_var, options=options,
                 checks=["c01"], bound=2 if tier == "quick" else 3, max_runs=300 if tier == "quick" else 1500, tracer=tracer)
+
+
+def fixture_cases(tier):
+    """The repository's own end-to-end fixtures as an extra input family (read from /repo at check time)."""
+    from graphql import parse
+    from checks import fixtures_common as fc
+    out = []
+    for name in fc.RESPONSE_FIXTURES:
+        sec = fc.load_fixture(name)
+        if not sec:
+            continue
+        try:
+            schema_text = open(sec["schema_path"]).read()
+            queries = open(sec["queries_path"]).read()
+            doc = parse(queries)
+        except Exception:  # noqa
+            continue
+        options = {k: v for k, v in sec.items() if k in ("scalars", "files_to_include", "plugins", "include_all_inputs", "include_all_enums", "extract-operations")}
+        scal = {k: ({"int": 1, "str": "x"}.get(v.get("type"), "x")) for k, v in (sec.get("scalars") or {}).items()}
+        for d in doc.definitions:
+            if d.kind == "operation_definition" and d.name and d.operation.value != "subscription":
+                out.append((name, schema_text, queries, d.name.value, options, scal))
+    return out
 
 
 def build_cases(tier):
@@ -51,7 +81,13 @@ def build_cases(tier):
             cases.append((o, cfg, "none"))
             if cfg["opentelemetry_client"] and cfg["convert_to_snake_case"]:
                 cases.append((o, cfg, "noop"))
-    return cases, {"k2_ops": len(k2), "singles": len(single_ops), "wrapper_ops": len(wops), "pairs": len(pair_ops), "config_subcorpus": len(sub)}
+    for fx, schema_text, queries, opn, options, scal in fixture_cases(tier):
+        o = corpus.Op(opn, f"{fx}:{opn}", queries, {"family:fixture", f"fixture:{fx}", f"fixture_op:{fx}/{opn}"}, False, set(), "fixture")
+        o_extra[id(o)] = dict(schema=schema_text, options=options, scal=scal)
+        cases.append((o, {}, "none"))
+        if tier != "quick":
+            cases.append((o, {"convert_to_snake_case": False, "async_client": False}, "none"))
+    return cases, {"fixture_ops": len(o_extra), "k2_ops": len(k2), "singles": len(single_ops), "wrapper_ops": len(wops), "pairs": len(pair_ops), "config_subcorpus": len(sub)}
 
 
 def run(tier, rep, checks=("c01",), clause_prefix=""):
@@ -70,13 +106,19 @@ def run(tier, rep, checks=("c01",), clause_prefix=""):
     distinct = set()
     for (o, cfg, tr), c, (st, r) in zip(cases, payload, results):
         k2f = "family:K2" in o.tags
+        fxf = "family:fixture" in o.tags
         case_desc = {"schema": "K2" if k2f else "K", "query": o.doc_text, "options": cfg, "tracer": tr}
+        if fxf:
+            case_desc = {"schema": "fixture", "fixture": o.text, "options": cfg, "tracer": tr}
         feats = None
 
         def F():
             nonlocal feats
             if feats is None:
-                feats = set(features.op_features(corpus.schema_k2() if k2f else schema, o.doc_text)) | set(t for t in o.tags if t.startswith("k2:"))
+                if fxf:
+                    feats = set(t for t in o.tags if t.startswith("fixture"))
+                else:
+                    feats = set(features.op_features(corpus.schema_k2() if k2f else schema, o.doc_text)) | set(t for t in o.tags if t.startswith("k2:"))
                 feats |= {f"cfg:{k}={v}" for k, v in cfg.items()} if cfg else set()
             return feats
         if rep.triage:
@@ -96,7 +138,7 @@ def run(tier, rep, checks=("c01",), clause_prefix=""):
         stats["capped_ops"] += 1 if r["capped"] else 0
         outcomes.update(r["outcomes"])
         if r["responses"] > 1:
-            distinct.add(o.text.split("{", 1)[1])
+            distinct.add(o.text.split("{", 1)[1] if "{" in o.text else o.text)
         for clause, detail, ctx in r["problems"]:
             rep.violation(clause, F(), detail, dict(case_desc, **ctx))
         if r["runs"] and len(rep.samples) < 4 and "k2" in o.tags:
